@@ -326,7 +326,7 @@ func (e *Exec) panicText(gp *goPanic) string {
 		return ""
 	}
 	if iv, ok := gp.v.(IfaceV); ok && iv.T != nil {
-		if s, ok := iv.V.(StrV); ok && s.Sym == nil {
+		if s, ok := iv.V.(StrV); ok && s.isConc() {
 			return ": " + s.C
 		}
 		return ": value of type " + iv.T.String()
